@@ -19,9 +19,9 @@ def sampleVerifyNow := sampleVerify sha
 def rowFromRawNow := rowFromRaw
 def rndVerifyNow := rndVerify sha
 def ndVerifyNow := ndVerify sha
-def befpPrefixNow := befpPrefix (safeVerifyRange sha)
+def befpPrefixNow := befpPrefix (safeVerifyRange sha) true true
 /-- is the `unwrap` of `BadEncodingFraudProof::validate` already replaced in /repo? -/
-def BEFP_UNWRAP_FIXED : Bool := false
+def BEFP_UNWRAP_FIXED : Bool := true
 def befpSuffixNow := befpSuffix BEFP_UNWRAP_FIXED sha
 
 def parseRawProof (ws : List String) : Option RawProof :=
